@@ -20,14 +20,16 @@ const (
 	mN = 4 // imports M's memory and M.ld; grows the memory, writes into it, calls ld through the import and through a table slot
 	mH = 5 // HOST module (NewHostModuleBuilder): three Go closures over one heap-allocated state object
 	mG = 6 // guest importing H's functions; calls them directly and through a table slot
-	mD = 7 // pseudo module: an instance of D whose instantiation FAILED after it had written into A's table
+	mT = 7 // table owner: exports a 3-slot funcref table and calls through every slot; the LIVE instance of graph TR
+	mR = 8 // referencer: imports T's table and makes MANY references to its one function r (duplicate element-segment entries, repeated ref.func, table.init, funcref global)
+	mD = 9 // pseudo module: an instance of D whose instantiation FAILED after it had written into A's table
 
-	nMods = 7
+	nMods = 9
 )
 
-var modNames = [nMods]string{"A", "B", "C", "M", "N", "H", "G"}
+var modNames = [nMods]string{"A", "B", "C", "M", "N", "H", "G", "T", "R"}
 
-func modIndex(c byte) int { return strings.IndexByte("ABCMNHG", c) }
+func modIndex(c byte) int { return strings.IndexByte("ABCMNHGTR", c) }
 
 // function values a slot can hold
 const (
@@ -37,13 +39,14 @@ const (
 	fBimp // reference created by B to its IMPORT of A.g (wazevo: pointer into B's module context; interpreter: B's copy of the record)
 	fCc   // C's function c
 	fDd   // function d of D, written into A.tab[0] by D's ACTIVE element segment before D's instantiation failed
+	fRr   // R's function r (graph TR): every reference to it is a separate record made by R
 	nFns
 )
 
-var fnNames = [nFns]string{"null", "A.g", "B.k", "B.imp(A.g)", "C.c", "D.d(failed instantiation)"}
+var fnNames = [nFns]string{"null", "A.g", "B.k", "B.imp(A.g)", "C.c", "D.d(failed instantiation)", "R.r"}
 
 // owner of the memory of a reference (the instance whose module engine allocated the record)
-var fnOwner = [nFns]int{-1, mA, mB, mB, mC, mD}
+var fnOwner = [nFns]int{-1, mA, mB, mB, mC, mD, mR}
 
 // slots
 const (
@@ -52,11 +55,17 @@ const (
 	sBt        // B's private table [0]
 	sBg        // B's funcref global
 	sCt        // C's private table [0]
+	nABCSlots  // the slots above belong to the A/B/C graphs (bounded by MaxNonNull)
+	// graph TR: T's exported table (imported by R) and R's funcref global
+	sTt0 = iota - 1 // filled by R's ACTIVE element segment [r, r] at instantiation
+	sTt1            // (the duplicate entry)
+	sTt2            // null until R (or the host with a reference from R) stores into it
+	sRg             // R's funcref global, initialised with ref.func r
 	nSlots
 )
 
-var slotNames = [nSlots]string{"A.tab[0]", "A.glob", "B.ptab[0]", "B.glob", "C.ptab[0]"}
-var slotHolder = [nSlots]int{mA, mA, mB, mB, mC}
+var slotNames = [nSlots]string{"A.tab[0]", "A.glob", "B.ptab[0]", "B.glob", "C.ptab[0]", "T.tab[0]", "T.tab[1]", "T.tab[2]", "R.glob"}
+var slotHolder = [nSlots]int{mA, mA, mB, mB, mC, mT, mT, mT, mR}
 
 const (
 	instNone = iota
@@ -74,6 +83,7 @@ type state struct {
 	Drop        [nMods]bool // host dropped every reference (instance handle, compiled-module handle)
 	MemGrown    uint8       // how often M's exported memory was grown by one page (at most 2)
 	MemWrote    uint8       // 0: N never wrote; else 1 + MemGrown at the time of N's last write (first and last page)
+	RefsMade    uint8       // graph TR: references R created AFTER its instantiation: 0 none, 1 a few (< 8), 2 a burst (>= 64)
 	Slots       [nSlots]uint8
 	Fill        uint8 // bit i: filler compiled module Fi was closed
 	Stale       bool  // a compiled module was deleted from the live engine and no fresh modules were added since
@@ -110,6 +120,7 @@ func (s state) key() string {
 	b.WriteByte('|')
 	b.WriteByte('0' + s.MemGrown)
 	b.WriteByte('0' + s.MemWrote)
+	b.WriteByte('0' + s.RefsMade)
 	bit(s.Stale)
 	bit(s.GCClean)
 	if keyFillers {
@@ -153,6 +164,9 @@ func (s state) String() string {
 	if s.MemGrown != 0 || s.MemWrote != 0 {
 		p = append(p, fmt.Sprintf("M.mem grown x%d, N wrote at size %d", s.MemGrown, s.MemWrote))
 	}
+	if s.RefsMade != 0 {
+		p = append(p, "R made "+[...]string{"", "a few", "a burst of"}[s.RefsMade]+" more references to r")
+	}
 	if s.Fill != 0 {
 		p = append(p, fmt.Sprintf("fillers-closed=%04b", s.Fill))
 	}
@@ -186,7 +200,30 @@ const (
 	kMemWrite    // N stores marker values at address 100 and at offset 100 of the last page
 	kCloseFiller // CompiledModule.Close of filler Fi: a compiled module with code that nobody ever instantiates
 	kFailInst    // instantiate a module D that imports A.tab, writes its own function into it with an active element segment, and then FAILS
+	kRefMake     // graph TR: R creates further references to its one function r (op.X: how), or T overwrites one of the duplicates
 )
+
+// how further references to R.r are made (op.X of kRefMake)
+const (
+	rmSet     = iota // R: T.tab[2] = ref.func r (one new reference, guest table.set)
+	rmBurst          // R: refBurst x (T.tab[2] = ref.func r) in a guest loop: many references made by one live instance
+	rmInit           // R: table.init T.tab[1..2] from its passive segment (duplicates of r): overwrites one duplicate, keeps T.tab[0]
+	rmHost           // host: ref = R.getref() (ref.func r) ; T.put2(ref)
+	rmGlobal         // R: glob = ref.func r
+	rmClear0         // T: T.tab[0] = null (one of the duplicate entries is overwritten; the other must stay callable)
+	nRefMakes
+)
+
+const refBurst = 64
+
+var refMakeNames = [nRefMakes]string{
+	"R: T.tab[2] = ref.func r (guest table.set)",
+	fmt.Sprintf("R: %d x (T.tab[2] = ref.func r) (guest loop)", refBurst),
+	"R: table.init T.tab[1..2] from passive segment [r x64]",
+	"host: R.getref() -> T.put2(ref)",
+	"R: glob = ref.func r",
+	"T: T.tab[0] = null",
+}
 
 // how the instantiation of D fails (op.X) and through which API it is attempted (op.A)
 const (
@@ -294,6 +331,8 @@ func (o op) String() string {
 		return fmt.Sprintf("close-compiled filler F%d (unused module)", o.X+1)
 	case kFailInst:
 		return fmt.Sprintf("instantiate-failing D{elem A.tab[0]=d; %s} via %s", failKindNames[o.X], viaNames[o.A])
+	case kRefMake:
+		return refMakeNames[o.X]
 	}
 	return "?"
 }
@@ -333,6 +372,9 @@ func allOps() []op {
 	}
 	o = append(o, op{K: kGrowGuest}, op{K: kGrowHost}, op{K: kMemWrite})
 	o = append(o, op{K: kHostReenter, A: aCloseInst}, op{K: kHostReenter, A: aCloseComp})
+	for x := 0; x < nRefMakes; x++ {
+		o = append(o, op{K: kRefMake, X: x})
+	}
 	return o
 }
 
@@ -365,7 +407,7 @@ func (s state) enabled(o op) bool {
 		// each named module is instantiated at most once per history (see NOTES: limits); the attempt may fail
 		// with an ordinary error (compiled module closed, runtime closed, import target closed).
 		// (the shared-memory graph MN is a world of its own: A, B, C are not added to it)
-		return s.Inst[o.X] == instNone && !s.Drop[o.X] && s.Inst[mM] == instNone && s.Inst[mH] == instNone
+		return s.Inst[o.X] == instNone && !s.Drop[o.X] && s.Inst[mM] == instNone && s.Inst[mH] == instNone && s.Inst[mT] == instNone
 	case kFresh:
 		return true
 	case kCloseInst:
@@ -403,6 +445,15 @@ func (s state) enabled(o op) bool {
 		// A must be registered (the import resolves), runtime and engine must be open: then the instantiation fails
 		// for the designed reason, after the import of A.tab was resolved
 		return s.Inst[mA] == instOpen && !s.RtClosed && !s.CacheClosed
+	case kRefMake:
+		// guest code of an open executor the host has a handle to (T's table lives as long as T's instance object)
+		switch o.X {
+		case rmHost:
+			return s.usable(mR) && s.usable(mT)
+		case rmClear0:
+			return s.usable(mT) && s.Slots[sTt0] != fNull
+		}
+		return s.usable(mR) && s.Inst[mT] != instNone
 	}
 	return false
 }
@@ -480,6 +531,26 @@ func (s state) apply(o op) state {
 		if failWrites[o.X] {
 			n.Slots[sAt] = fDd
 		}
+	case kRefMake:
+		made := uint8(1)
+		switch o.X {
+		case rmSet, rmHost:
+			n.Slots[sTt2] = fRr
+		case rmBurst:
+			n.Slots[sTt2] = fRr
+			made = 2
+		case rmInit:
+			n.Slots[sTt1], n.Slots[sTt2] = fRr, fRr
+			made = 0 // copies references made at instantiation (the passive segment's), creates none
+		case rmGlobal:
+			n.Slots[sRg] = fRr
+		case rmClear0:
+			n.Slots[sTt0] = fNull
+			made = 0
+		}
+		if made > n.RefsMade {
+			n.RefsMade = made
+		}
 		// (with viaInstantiate wazero deletes D's compiled module from the engine; this is deliberately not tracked in
 		// the "stale engine slot" bit: "..., instantiate-fresh-modules" is still executed after it as a transition,
 		// and freed records are clobbered regardless of whether the code is still mapped)
@@ -515,6 +586,9 @@ func (s state) reachable() [nMods + 1]bool {
 	if s.Inst[mG] != instNone && r[mG] {
 		r[mH] = true // G imports H's functions
 	}
+	if s.Inst[mR] != instNone && (r[mT] || r[mR]) {
+		r[mT], r[mR] = true, true // R imports T's table; T's table lists R in involvingModuleInstances
+	}
 	return r
 }
 
@@ -548,6 +622,10 @@ func (in initial) state() state {
 	s.HostVia = in.HostVia
 	for _, c := range in.Mods {
 		s.Inst[modIndex(byte(c))] = instOpen
+	}
+	if s.Inst[mR] == instOpen {
+		// R's instantiation: active element segment T.tab[0..1] = [r, r], global initialiser ref.func r
+		s.Slots[sTt0], s.Slots[sTt1], s.Slots[sRg] = fRr, fRr, fRr
 	}
 	return s
 }
